@@ -6,6 +6,7 @@ package main
 // closed, so that it can never outlive its driver.
 
 import (
+	"bytes"
 	"bufio"
 	"encoding/hex"
 	"encoding/json"
@@ -165,6 +166,13 @@ func c16Payloads(c *cluster.Cluster, m *cluster.Member) map[string]string {
 	lie := append([]byte(nil), ent...)
 	lie[0] = 0xff // key length larger than the whole entry
 	put("ent_keylen_lie", lie)
+	// the value-length field claims two tables' worth of bytes, four are present; sent alone and
+	// followed by a further argument that is at least as long as the claimed value
+	vl := append([]byte(nil), ent[:1+len("k1")+24]...)
+	vl = append(vl, 0x00, 0x02, 0x00, 0x00) // 128 KiB, big endian; the tables of these members hold 64 KiB
+	vl = append(vl, 'x', 'x', 'x', 'x')
+	put("ent_vallen_lie", vl)
+	put("big_trailing", bytes.Repeat([]byte{'t'}, 128<<10+64))
 	return res
 }
 
